@@ -252,6 +252,19 @@ def pins_correspondence(chk, traces, scripts, shards=8):
     return stats
 
 
+def nested_trees_check(chk, traces):
+    """the hypothesis of C01_refused_update_restores_allocation holds for every pool tree the policy built"""
+    p = os.path.join(chk.work, 'cases_nested.v')
+    n = ta_corr.nested_case_file(p, sorted(traces.items()))
+    (rc, out), = coq_eval_many([p], timeout=600)
+    body = parse_coq_print(out, 'M')
+    if rc != 0 or body is None:
+        chk.corr_broken('tree_nestedb', 'coqc failed:\n' + out[-1500:])
+    elif 'false' in body:
+        chk.corr_broken('tree_nestedb', 'a pool tree built by the policy is not nested (sharable/isolated sets of a pool outside those of a pool above it): %s' % ' '.join(body.split())[:400])
+    return n
+
+
 def split_top(s):
     """split a Coq list body on top-level ';'"""
     out, depth, cur = [], 0, ''
